@@ -295,6 +295,7 @@ CHECKS["C15"] = {
              "(mailbox.NewClientConn/NewServerConn over gbn over the in-memory relay, virtual time), both directions, XX and KK. Oracle: every Read returns 0 <= n <= len(buf), never touches memory beyond the buffer, returns no error while the peer is open, "
              "and the concatenation read equals the concatenation written; Write returns len(b), nil, or (gRPC, > 65535) 0 and ErrMaxMessageLengthExceeded with nothing delivered. The mailbox variant runs on the first, second or third connection of a session (Refresh*Conn); a later connection that dies right after its handshake of what the previous one left in the relay streams is skipped (C10/C11). "
              "TestC15LengthSweep passes every write length 0..1100 and 2^k+-2 up to the record limit (140000 on the TCP variant) once through each connection type and direction, read back with a buffer cycle. TestC15Interleaved: two sessions of a kind (grpc / tcp) alive in one process, both directions each, everything written first, then the four readers advance one Read at a time in a drawn order (up to 40 scripted steps, then round-robin) with drawn buffer sizes, so that records are left half-read while other connections read; per stream the same oracle. "
+             "TestC15GrpcReuse: ONE NoiseGrpcConn per party through 2-4 connections of a session (it is the credentials object; Client/ServerHandshake return it as the net.Conn): handshake over a fresh transport, 0-3 writes each way, readers that stop after 0-6 Reads (also in the middle of a record), transport closed, next connection; per connection and direction what is read is a prefix of what the peer wrote on that connection. "
              "TestC15Coalesce: see C16 (f): no byte written right behind the handshake is lost. "
              "Non-trivial: some read buffer was smaller than the largest write (interleaved: a record was left half-read while another connection read); distinct by case."),
     "assumptions": ["the mailbox variant is relative to the in-memory relay model"],
@@ -303,6 +304,7 @@ CHECKS["C15"] = {
         {"pkg": "mboxprop", "run": "TestC15TCP", "checks": (1500, 20000), "shards": (1, 4), "timeout": (900, 3600)},
         {"pkg": "mboxprop", "run": "TestC15Mailbox", "checks": (1200, 15000), "shards": (1, 8), "timeout": (900, 3600)},
         {"pkg": "mboxprop", "run": "TestC15Interleaved", "checks": (400, 4000), "shards": (1, 8), "timeout": (900, 3600)},
+        {"pkg": "mboxprop", "run": "TestC15GrpcReuse", "checks": (600, 10000), "shards": (1, 4), "timeout": (900, 3600)},
         {"pkg": "mboxprop", "run": "TestC15Coalesce", "checks": (1500, 10000), "shards": (1, 8), "timeout": (900, 3600)},
         {"pkg": "mboxprop", "run": "TestC15LengthSweep", "kind": "plain", "timeout": (900, 3600)},
     ],
